@@ -343,7 +343,7 @@ class Run:
 
         t_ok = e_ok = nfail = 0
         t0 = time.time()
-        with ThreadPoolExecutor(max_workers=3) as ex:
+        with ThreadPoolExecutor(max_workers=4) as ex:
             for failures, nb, ne, err in ex.map(one, range(len(chunks))):
                 if err:
                     with LOCK:
@@ -418,7 +418,7 @@ def run(tier):
                 OpTaskArgs={"u1", "u2", "u3"})
     f_a = ex.submit(gen, wd, "gen-all-sequences-45-shapes", ga, None, None, 1200)
     f_b = ex.submit(gen, wd, "gen-all-sequences-21-mutators", gb, None, None, 1200)
-    f_s = ex.submit(gen, wd, "gen-sim-depth40", s, 4000 if thorough else 300, 41, 900)
+    f_s = ex.submit(gen, wd, "gen-sim-depth40", s, 2500 if thorough else 300, 41, 900)
     f_r = ex.submit(gen, wd, "gen-sim-readonly", r, 2000 if thorough else 250, 31)
     f_l = ex.submit(gen, wd, "gen-sim-legacy", lg, 2000 if thorough else 250, 31) if cli else None
     sa, sb, sim, ros = f_a.result(), f_b.result(), f_s.result(), f_r.result()
@@ -433,7 +433,7 @@ def run(tier):
             ex.submit(run_.pair, "seqA", ga, sa, "ascii", 20000)]
     f_sim = ex.submit(run_.pair, "sim", s, sim)
     for vc in ("unicode", "edge"):
-        jobs.append(ex.submit(run_.pair, f"sim-{vc}", s, sim if thorough else sim[:100], vc))
+        jobs.append(ex.submit(run_.pair, f"sim-{vc}", s, sim[:1500] if thorough else sim[:100], vc))
     jobs.append(ex.submit(run_.replay, "readonly-sqlite", r, ros, "sqlite"))
     legacy_note = None
     if cli:
@@ -458,7 +458,16 @@ def run(tier):
     # 5. binding demonstration: the recorded traces pin the return values -- validated against
     #    the specification with a deviation switched on, real traces must be rejected
     if ts_sim:
-        few = [("sim-sqlite", ts_sim)]
+        small = os.path.join(wd, "binding.trace.ndjson")
+        with open(small, "w") as f:
+            n = 0
+            for line in open(ts_sim):
+                if line.startswith('{"a":"Reset"'):
+                    n += 1
+                    if n > 300:
+                        break
+                f.write(line)
+        few = [("sim-sqlite", small)]
         for dev in ("DEL", "ADD"):
             nfail = run_.validate(f"binding-{dev}", few, dev=[dev], expect_reject=True)
             v.extra.setdefault("binding_demonstration", {})[dev] = \
